@@ -3800,6 +3800,15 @@ impl Zeroconf {
         };
 
         debug!("UnregisterResend from {:?}", if_addr);
+        // Send from the interface the goodbye belongs to, not the one the socket used last.
+        let set_if = match if_addr.ip() {
+            IpAddr::V4(ipv4) => sock.pktinfo.set_multicast_if_v4(&ipv4),
+            IpAddr::V6(_) => sock.pktinfo.set_multicast_if_v6(intf.index),
+        };
+        if let Err(e) = set_if {
+            debug!("UnregisterResend: failed to set multicast interface: {}", e);
+            return;
+        }
         multicast_on_intf(
             &packet[..],
             &intf.name,
